@@ -203,9 +203,11 @@ class ScriptedSocket(socket.socket):
         sc = self.script
         if not sc.recv:
             sc.tick(0)
+            if getattr(sc, "dgram", False):
+                raise BlockingIOError(11, "scripted EAGAIN (no datagram will arrive)")
             return b""
         kind, data, cost = sc.recv[0]
-        if kind == 0 and len(data) > bufsize:
+        if kind == 0 and len(data) > bufsize and not getattr(sc, "dgram", False):
             # deliver the first bufsize bytes, keep the rest for the next call (like a kernel buffer)
             sc.recv[0] = (0, data[bufsize:], 0)
             sc.tick(cost)
@@ -235,6 +237,112 @@ class NoSendmsgSocket(ScriptedSocket):
     @property
     def sendmsg(self):
         raise AttributeError("sendmsg")
+
+
+class FakeSSLSocket:
+    """What SSLStreamTransport needs from ssl.SSLSocket; send() is scripted (SSL exceptions)."""
+
+    def __init__(self, sock, script, context):
+        self._sock, self.script, self.context = sock, script, context
+        self.family, self.type, self.proto = sock.family, sock.type, sock.proto
+
+    def setblocking(self, flag):
+        self._sock.setblocking(flag)
+
+    def do_handshake(self):
+        return None
+
+    def fileno(self):
+        return self._sock.fileno()
+
+    def getsockname(self):
+        return self._sock.getsockname()
+
+    def getpeername(self):
+        return self._sock.getpeername()
+
+    def getpeercert(self, binary_form=False):
+        return None
+
+    def cipher(self):
+        return None
+
+    def compression(self):
+        return None
+
+    def version(self):
+        return None
+
+    def unwrap(self):
+        return self._sock
+
+    def shutdown(self, how):
+        self._sock.shutdown(how)
+
+    def close(self):
+        self._sock.close()
+
+    def send(self, data, *flags):
+        import ssl
+        sc = self.script
+        with memoryview(data) as mv, mv.cast("B") as mv:
+            if not sc.send:
+                sc.tick(0)
+                k = len(mv)
+            else:
+                kind, n, cost = sc.send.pop(0)
+                sc.tick(cost)
+                if kind in (1, 2):
+                    raise ssl.SSLWantWriteError(ssl.SSL_ERROR_WANT_WRITE, "scripted")
+                if kind == 3:
+                    raise ssl.SSLWantReadError(ssl.SSL_ERROR_WANT_READ, "scripted")
+                if kind == 4:
+                    raise ssl.SSLSyscallError(ssl.SSL_ERROR_SYSCALL, "scripted")
+                if kind == 5:
+                    raise ssl.SSLZeroReturnError(ssl.SSL_ERROR_ZERO_RETURN, "scripted")
+                k = min(n, len(mv))
+            if k:
+                sc.accepted += mv[:k]
+                self._sock.sendall(mv[:k])
+            return k
+
+    def _recv_answer(self, bufsize):
+        import ssl
+        sc = self.script
+        if not sc.recv:
+            sc.tick(0)
+            return b""
+        kind, data, cost = sc.recv[0]
+        if kind == 0 and len(data) > bufsize:
+            sc.recv[0] = (0, data[bufsize:], 0)
+            sc.tick(cost)
+            return data[:bufsize]
+        sc.recv.pop(0)
+        sc.tick(cost)
+        if kind == 0:
+            return data
+        if kind in (1, 2):
+            raise ssl.SSLWantReadError(ssl.SSL_ERROR_WANT_READ, "scripted")
+        if kind == 3:
+            raise ssl.SSLWantWriteError(ssl.SSL_ERROR_WANT_WRITE, "scripted")
+        raise ConnectionResetError(104, "scripted ECONNRESET")
+
+    def recv(self, bufsize, *flags):
+        return self._recv_answer(bufsize)
+
+    def recv_into(self, buffer, nbytes=0, *flags):
+        with memoryview(buffer) as mv, mv.cast("B") as mv:
+            data = self._recv_answer(nbytes or len(mv))
+            mv[:len(data)] = data
+            return len(data)
+
+
+class FakeSSLContext:
+    def __init__(self, script):
+        self.script = script
+
+    def wrap_socket(self, sock, **kw):
+        return FakeSSLSocket(sock, self.script, self)
 
 
 def make_pair(cls, script, kind=socket.SOCK_STREAM, family=None):
